@@ -254,7 +254,7 @@ Section Typed.
     ue E Q (VList l) (UNamed c) = Exn e ->
     (exists i x f, nth_error l i = Some x /\ nth_error (sc_fields k) i = Some f /\
                    ue E Q x (cu true (sf_ty f)) = Exn e) \/
-    (exists rest, nt_tail konst_u (nt_exhausted (TyModel.has_default (sc_fields k))) rest = Exn e).
+    (exists rest, nt_tail (konst_u E) (nt_exhausted (TyModel.has_default (sc_fields k))) rest = Exn e).
   Proof.
     intros c k l e Hf H. cbn [ue] in H. rewrite Hf in H.
     match type of H with context [nt_items ?run ?ko ?mi (sc_fields k) l] =>
@@ -275,8 +275,8 @@ Section Typed.
     { clear. induction l as [|x l IH]; intros us e H.
       - destruct us as [|u us]; [discriminate|]. right. split; [|cbn; lia].
         clear -H. revert e H. generalize (u :: us). intros us0. induction us0 as [|u0 r IH]; intros e H; [discriminate|].
-        cbn [none_tail] in H. destruct (const_dec u0); [|inversion H; reflexivity].
-        destruct (none_tail r) as [ys|e1]; cbn [bind] in H; [discriminate|]. inversion H; subst. apply IH. reflexivity.
+        cbn [none_tail] in H. destruct (const_dec E u0); [|inversion H; reflexivity].
+        destruct (none_tail E r) as [ys|e1]; cbn [bind] in H; [discriminate|]. inversion H; subst. apply IH. reflexivity.
       - destruct us as [|u us]; [discriminate|].
         destruct (ue E Q x u) as [y|e0] eqn:Ex; cbn [bind] in H.
         + match type of H with context [(?g us l)] => destruct (g us l) as [ys|e1] eqn:Eg end; cbn [bind] in H; [discriminate|].
